@@ -837,6 +837,10 @@ def run_cases(ctx, cases, exes, drv, flavours):
             ctx.sample({"case": line[:300], "impl": impl[:200]})
     ctx.cov["traces_validated_against_impl"] = compared
     ctx.cov["model_impl_disagreements"] = disagree
+    # the extracted model abstains ("skip huge") on GIF/Targa images above 65536 pixels and BMP above 2^24 pixels: the
+    # list-based model is quadratic in the pixel count (minutes per megapixel image); such cases are still judged by the
+    # property-level oracle, and the theorems are for all sizes
+    ctx.cov["model_abstentions"] = sum(1 for l in (mlines or []) if l.startswith("skip huge"))
     ctx.cov["outcomes_per_stream"] = outcomes
     ctx.cov["rule"] = ("structured PNM files (P2/P3/P5/P6 x header mutations x comments x truncation x maxval 1..65535 x precision 2..16 x "
                        "12 pixel formats x bottom-up x alignment x pixel limit), random bytes, tj3SaveImage outputs, BMP 8/24/32-bit with "
